@@ -39,8 +39,9 @@ def main(path):
         out = case.code(I, mk)
     except (ValueError, TypeError, ZeroDivisionError, UnboundLocalError, KeyError, IndexError, AttributeError) as e:
         raised = type(e).__name__
-    if getattr(case, "ref_per_path", False):
-        ref = case.ref_concrete(I, FloatOps, mk, out, raised)
+    per_path = hasattr(case, "path_obligations")
+    if per_path:
+        ref = case.ref_concrete(I, FloatOps, mk)
     else:
         ref = case.ref(I, FloatOps, mk)
     label, idx, part = p["label"], tuple(p["index"]), p["part"]
@@ -50,6 +51,15 @@ def main(path):
         detail = f"code raised {raised}, oracle expects {want}"
         return ("reproduced" if bad else "not-reproduced"), detail
     fo, fr = dict(flatten(out)), dict(flatten(ref))
+    if per_path:
+        # path-dependent oracle: any disagreement between the real code and the concrete oracle reproduces
+        for key in fr:
+            if key not in fo:
+                return "reproduced", f"label {key} missing from the code's output"
+            for (pn, x), (_, y) in zip(fparts(fo[key]), fparts(fr[key])):
+                if case.replay_compare(key[0], key[1], x, y) or not (np.isfinite(x) and np.isfinite(y)):
+                    return "reproduced", f"code={x!r} oracle={y!r} at {key[0]}{list(key[1])}"
+        return "not-reproduced", "all labels agree"
     key = (label, idx)
     if key not in fo or key not in fr:
         return "error", f"label {key} not produced in replay"
